@@ -168,6 +168,12 @@ class FileProxy:
 
     def write(self, d):
         self._fire("f.write", len(d))
+        hook = getattr(self._ctx, "write_hook", None)
+        if hook is not None and isinstance(self._f, io.RawIOBase) and len(d) > 1 \
+                and getattr(_tls, "ctx", None) is self._ctx:
+            # an UNBUFFERED file may legally take fewer bytes than it was given (short write);
+            # buffered files retry by themselves, so nothing is simulated for them
+            return self._f.write(bytes(d)[:hook(len(d))])
         return self._f.write(d)
 
     def writelines(self, d):
